@@ -305,7 +305,7 @@ pub fn checks() -> Vec<Check> {
         id: "C16",
         level: "fault_enumeration",
         stages: vec![
-            st("c16.writer_faults", c16::writer_faults, (0, 0), 3, "12 hand-listed shapes + all programs of depth <=2 (thorough <=3): one injected device error at every device-operation index (read/write/seek/flush)"),
+            st("c16.writer_faults", c16::writer_faults, (0, 0), 3, "12 hand-listed shapes + all programs of depth <=2 (thorough <=3): in the fault-free run every device write is covered by a flush when finalize returns; one injected device error at every device-operation index (read/write/seek/flush)"),
             st("c16.writer_chunks", c16::writer_chunks, (1, 2), 3, "the same programs: every chunking schedule with <=1 (thorough <=2) short transfers {1 byte, half, len-1} of device and blob-source transfers + 3 uniform schedules"),
             st("c16.reader_faults", c16::reader_faults, (0, 0), 3, "4 files x reader program (validate_crc, raw_xml, open, every read op): one injected device error at every device-operation index"),
             st("c16.reader_chunks", c16::reader_chunks, (1, 2), 3, "4 files x reader program under every schedule with <=1 (thorough <=2) short reads + 3 uniform schedules"),
